@@ -278,6 +278,16 @@ VALS = {
 }
 FIELD_KW = {'P': 'orbital_period', 'n': 'orbital_frequency', 'a': 'semi_major_axis'}
 PATHS = ('w.prop', 'w.set_state', 'o.set_state', 'o.setter')
+# the same orbit slot addressed through the tidal HOST instance (pristine behaviour: a host signature resolves to its tide raiser's
+# slot, so these are just further access paths); one scalar value per field to keep the alphabet small
+HOST_PATHS = ('o.set_state(host)', 'o.setter(host)', 'host.set_state', 'host.prop')
+HOST_VALS = {'P': 'P50', 'n': 'n2e-6', 'a': 'a3e9'}
+# the planet-mass host's own orbit around the star (separate slot, star mass): written value -> (field, value)
+STELLAR_OPS = {
+    'SP4000:o.set_state(host,stellar)': ('P', 4000.0), 'Sn2e-8:o.set_state(host,stellar)': ('n', 2e-8),
+    'Sa7e11:o.set_state(host,stellar)': ('a', 7e11), 'Sa6e11:o.setter(host,stellar)': ('a', 6e11),
+    'SP3000:o.setter(host,stellar)': ('P', 3000.0), 'Sn3e-8:o.setter(host,stellar)': ('n', 3e-8),
+    'Sa5e11:o.set_stellar_distance(host)': ('a', 5e11), 'Sa4e11:host.stellar_distance': ('a', 4e11)}
 _SEED = [0]
 
 
@@ -287,9 +297,12 @@ def _value(fld, vname):
     return np.array(v, dtype=float) * f if isinstance(v, list) else float(v) * f
 
 
-def op_names():
+def op_names(sysname=None):
     ops = [f'{vn}:{p}' for fld in ('P', 'n', 'a') for vn in VALS[fld] for p in PATHS]
     ops.append('e.1:w.set_state')
+    ops += [f'{HOST_VALS[fld]}:{p}' for fld in ('P', 'n', 'a') for p in HOST_PATHS]
+    if sysname is not None and SYSTEMS[sysname.split('@')[0]]['host'] == 'planet':
+        ops += list(STELLAR_OPS)
     return ops
 
 
@@ -297,6 +310,22 @@ def _do(name, w, o):
     vn, _, path = name.partition(':')
     if vn == 'e.1':
         w.set_state(eccentricity=0.1)
+        return
+    host = o.tidal_host
+    if name in STELLAR_OPS:
+        fld, v = STELLAR_OPS[name]
+        v = v * SEEDF[_SEED[0] % len(SEEDF)]
+        kw = FIELD_KW[fld]
+        if path == 'o.set_state(host,stellar)':
+            o.set_state(host, set_stellar_orbit=True, **{kw: v})
+        elif path == 'o.setter(host,stellar)':
+            getattr(o, 'set_' + kw)(host, v, set_stellar_orbit=True)
+        elif path == 'o.set_stellar_distance(host)':
+            o.set_stellar_distance(host, v)
+        elif path == 'host.stellar_distance':
+            host.stellar_distance = v
+        else:
+            raise KeyError(name)
         return
     fld = vn[0]
     v = _value(fld, vn)
@@ -309,6 +338,14 @@ def _do(name, w, o):
         o.set_state(w, **{kw: v})
     elif path == 'o.setter':
         getattr(o, 'set_' + kw)(w, v)
+    elif path == 'o.set_state(host)':
+        o.set_state(host, **{kw: v})
+    elif path == 'o.setter(host)':
+        getattr(o, 'set_' + kw)(host, v)
+    elif path == 'host.set_state':
+        host.set_state(**{kw: v})
+    elif path == 'host.prop':
+        setattr(host, kw, v)
     else:
         raise KeyError(name)
 
@@ -346,6 +383,8 @@ def logical(history):
         vn, _, path = name.partition(':')
         if vn == 'e.1':
             s['e'] = 0.1
+        elif name in STELLAR_OPS:
+            s['stellar'] = name
         else:
             s['orb'] = vn
     return s
@@ -471,6 +510,21 @@ def explore(task):
             meas['kepler'] = max(meas.get('kepler', 0.0), k3)
             if not (k3 <= TOL_ORBIT and pp <= TOL_ORBIT):
                 viol.append((f'C17/orbit/host-stellar-orbit/{tag}', dict(a=_sh(ah), n=_sh(nh), P=_sh(Ph), rel_kepler=k3, rel_period=pp, system=sysname)))
+            if 'stellar' in s:
+                fld, v = STELLAR_OPS[s['stellar']]
+                v = v * SEEDF[_SEED[0] % len(SEEDF)]
+                got = dict(a=ah, n=nh, P=Ph)[fld]
+                if not (np.ndim(got) == 0 and float(got) == float(v)):
+                    viol.append((f'C17/orbit/host-stellar-orbit/last-written-not-reported/{tag}', dict(field=fld, written=v, reported=_sh(got), system=sysname)))
+                exp = _expected(fld, v, GMs)
+                for k, g in (('a', ah), ('n', nh), ('P', Ph)):
+                    if not _rel(g, exp[k]) <= TOL_ORBIT:
+                        viol.append((f'C17/orbit/host-stellar-orbit/differs-from-model/{tag}', dict(quantity=k, reported=_sh(g), model=_sh(exp[k]), system=sysname)))
+                        break
+            for wd in (w.stellar_distance, host.stellar_distance):
+                if wd is not None and not _rel(wd, ah) <= TOL_ORBIT:
+                    viol.append((f'C17/orbit/host-stellar-orbit/stellar_distance-accessor/{tag}', dict(reported=_sh(wd), stellar_a=_sh(ah), system=sysname)))
+                    break
         except Exception as e:
             viol.append((f'C17/orbit/host-stellar-orbit/{tag}', dict(msg=f'{type(e).__name__}: {e}'[:200], system=sysname)))
     # eccentricity bookkeeping of the neutral operation
@@ -521,11 +575,11 @@ def run(ctx):
                 worst[k] = v
     ev1, dn1 = ctx.coverage['evaluations'], ctx.coverage['distinct_nontrivial']
     depth_full, depth_canon = (2, 3) if not ctx.thorough else (3, 4)
-    ops = op_names()
     tot = dict(states=0, transitions=0, executions=0)
     per, samples = {}, []
     for sysname in SYSTEMS:
         cfg = f'{sysname}@{ctx.seed}'
+        ops = op_names(sysname)
         r = histories.bfs(ctx, 'mc.props.C17:explore', cfg, ops, depth_full, depth_canon, chunk=32)
         per[sysname] = {k: v for k, v in r.items() if k != 'samples'}
         for k in tot:
@@ -533,12 +587,12 @@ def run(ctx):
         samples.extend(dict(config=cfg, history=h) for h in r['samples'][:1])
         ctx.note(f'{sysname}: alphabet={len(ops)} {per[sysname]}')
     ctx.coverage.update(states=tot['states'], transitions=tot['transitions'], traces_validated_against_impl=tot['executions'],
-                        per_system=per, depth_full=depth_full, depth_canonical=depth_canon, alphabet=ops,
+                        per_system=per, depth_full=depth_full, depth_canonical=depth_canon, alphabet=op_names('planet-host/io-mass'),
                         lattice_evaluations=ev1, lattice_distinct=dn1,
                         measured_worst_ulps={k: float(v) for k, v in sorted(worst.items())},
                         exhaustive=not any(v['frontier_capped'] for v in per.values()))
     ctx.coverage['samples'] = list(ctx.coverage.get('samples', []))[:4] + samples
-    ctx.coverage['rule'] += (f' | orbit histories: all histories over the {len(ops)}-operation alphabet to depth {depth_full}, then '
+    ctx.coverage['rule'] += (f' | orbit histories: all histories over the 49-operation alphabet (57 with the stellar-orbit operations of planet-host systems) to depth {depth_full}, then '
                              f'canonical-state BFS to depth {depth_canon} / fixpoint, on 4 systems (star / planet host x 2 target masses); '
                              'every history executed on freshly built real objects (states = distinct (logical state, deep fingerprint))')
     ctx.note('measured worst (ulps): ' + ', '.join(f'{k}={v:.3g}' for k, v in sorted(worst.items())))
